@@ -142,3 +142,101 @@ func vStatsScenario(kind int) {
 
 func VerifC19_StatsPlain() { vStatsScenario(0) }
 func VerifC19_StatsRel()   { vStatsScenario(1) }
+
+// ---- "filter, observer and lock figures match what is registered": the figures are
+// compared with ghost counts kept by the harness over every history of register /
+// unregister / open / close steps (not with the library's own counters).
+func vRegisteredFigures(steps int, evts []EventType) {
+	W := vNewWorld(1, 1, 0)
+	w := W.w
+	W.create([]int{cA}, Entity{}, Entity{})
+	W.create([]int{cA, cB}, Entity{}, Entity{})
+	var obs [3]*Observer
+	var obsReg [3]bool
+	nObs := 0
+	f1 := NewFilter1[vPos](w)
+	f2 := NewFilter2[vPos, vVel](w)
+	var fReg [2]bool
+	var q [2]Query1[vPos]
+	var qOpen [2]bool
+	count := func(b []bool) int {
+		n := 0
+		for _, x := range b {
+			if x {
+				n++
+			}
+		}
+		return n
+	}
+	figures := func(l string) {
+		st := w.Stats()
+		vcheck(l+"/observers-figure", st.Observers == count(obsReg[:]))
+		vcheck(l+"/filters-figure", st.CachedFilters == count(fReg[:]))
+		vcheck(l+"/locked-figure", st.Locked == (count(qOpen[:]) > 0) && w.IsLocked() == st.Locked)
+	}
+	for s := 0; s < steps; s++ {
+		switch vPick("action", 6) {
+		case 0:
+			if nObs < len(obs) {
+				obs[nObs] = Observe(evts[vPick("evt", len(evts))]).Do(func(Entity) {}).Register(w)
+				obsReg[nObs] = true
+				nObs++
+			}
+		case 1:
+			if k := vPick("obs", len(obs)); obsReg[k] {
+				obs[k].Unregister(w)
+				obsReg[k] = false
+			}
+		case 2:
+			if k := vPick("filter", 2); !fReg[k] {
+				if k == 0 {
+					f1.Register()
+				} else {
+					f2.Register()
+				}
+				fReg[k] = true
+			}
+		case 3:
+			if k := vPick("filter", 2); fReg[k] {
+				if k == 0 {
+					f1.Unregister()
+				} else {
+					f2.Unregister()
+				}
+				fReg[k] = false
+			}
+		case 4:
+			if k := vPick("query", 2); !qOpen[k] {
+				q[k] = f1.Query()
+				qOpen[k] = true
+			}
+		case 5:
+			if k := vPick("query", 2); qOpen[k] {
+				q[k].Close()
+				qOpen[k] = false
+			}
+		}
+		figures("step")
+	}
+	for k := range q {
+		if qOpen[k] {
+			q[k].Close()
+			qOpen[k] = false
+		}
+	}
+	w.Reset() // un-registers all cached filters and observers
+	W.n = 0
+	obsReg, fReg = [3]bool{}, [2]bool{}
+	figures("after-reset")
+	Observe(OnAddComponents).Do(func(Entity) {}).Register(w)
+	obsReg[0] = true
+	figures("after-reset-and-register")
+	vreach("end")
+}
+
+func VerifC19_RegisteredFigures() {
+	vRegisteredFigures(3, []EventType{OnCreateEntity, OnRemoveEntity, OnAddComponents, 0})
+}
+func VerifC19T_RegisteredFigures() {
+	vRegisteredFigures(3, []EventType{OnCreateEntity, OnRemoveEntity, OnAddComponents, OnRemoveComponents, OnSetComponents, OnAddRelations, OnRemoveRelations, 0, customEvent})
+}
